@@ -20,7 +20,7 @@ def run_group(args):
     else:
         cwd = REPO
         base = 'cargo kani --manifest-path %s/feos-core/Cargo.toml --target-dir %s -Z stubbing' % (REPO, tdir)
-    cmd = 'ulimit -v %d; exec timeout %d %s %s' % (mem_gb * 1024 * 1024, timeout, base, ' '.join('--exact --harness ' + h for h in harnesses))
+    cmd = 'ulimit -v %d; exec timeout %d %s %s' % (mem_gb * 1024 * 1024, timeout, base, ' '.join('--exact --harness ' + ('h::' if where == 'ext' else 'state::verif_kani::') + h for h in harnesses))
     t0 = time.time()
     with open(log, 'w') as f:
         p = subprocess.run(['bash', '-c', cmd], cwd=cwd, stdout=f, stderr=subprocess.STDOUT, env=ENV)
